@@ -194,6 +194,13 @@ func (publisher *Publisher) Places() map[string]*place {
 
 		// Get all of the unique place names.
 		for placeTag, node := range publisher.doc.Places() {
+			// The places of somebody who is living and not shown must not
+			// get a page (or be listed on one).
+			owner := individualForNode(publisher.doc, node)
+			if isHiddenLiving(owner, publisher.options.LivingVisibility) {
+				continue
+			}
+
 			prettyName := prettyPlaceName(placeTag.Value())
 
 			if prettyName == "" {
